@@ -54,6 +54,11 @@ def run(ctx, driver):
     concur.explore(ctx, rec, ID, {"p_fault": 0.1, "p_cancel": 0.1, "gate_close": True, "p_conn_close": 0.3}, 100, 6000, ["C04:"])
     concur.explore(ctx, rec, ID, {"p_fault": 0.1, "p_cancel": 0.05, "http2": True, "max_connections": 1, "p_conn_close": 0.0, "callers": 4},
                    30, 3000, ["C04:"])
+    # HTTP/2 pools at their limit with the server sending GOAWAY (any consistent last-stream-id) while responses are held open, read or
+    # abandoned and further requests arrive: pool list and open network streams stay within the limit
+    import h2x
+    h2x.explore(ctx, rec, ID, dict(max_connections=1, p_goaway=0.5, segment="coarse", init_max_streams=10, ups=[0, 0, 300], auto_credit=True,
+                                   abandon=True, downs=[0, 10, 3000]), 80, 3000, ["C04:"], gen=lambda r: {"max_connections": r.choice([1, 1, 2]), "callers": r.randint(3, 6)})
     # the synchronous pool under real threads (controlled scheduler of C08): len(pool._connections) <= N at every pre-emption point
     import c08run
     for i in range((100 if ctx.quick else 3000) * (8 if ctx.broken else 1)):
